@@ -662,11 +662,11 @@ Theorem C17_suffix_sites_for_every_declaration : forall e fl,
   /\ m_name (keys_msg e) = component_name e (bs "Keys") /\ m_name (data_msg e) = component_name e (bs "Data")
   /\ m_name (event_type_msg e) = component_name e (bs "EventType")
   /\ refs_of (publish_components e) = map (fun s => component_name e (bs s)) ["Keys"; "EventType"; "Data"; "Status"]%string
-  /\ lits_ok "acceptState" ["State"; "Keys"; "Data"; "Status"] = true
-  /\ lits_ok "acceptEvent" ["Event"; "Keys"; "EventType"] = true
-  /\ lits_ok "acceptKeys" ["Keys"] = true /\ lits_ok "acceptData" ["Data"] = true
-  /\ lits_ok "acceptEventOneof" ["EventType"] = true
-  /\ lits_ok "acceptPublishTopic" ["Keys"; "EventType"; "Data"; "Status"] = true.
+  /\ lits_ok "acceptState" ["State"; "Keys"; "Data"; "Status"]%string = true
+  /\ lits_ok "acceptEvent" ["Event"; "Keys"; "EventType"]%string = true
+  /\ lits_ok "acceptKeys" ["Keys"]%string = true /\ lits_ok "acceptData" ["Data"]%string = true
+  /\ lits_ok "acceptEventOneof" ["EventType"]%string = true
+  /\ lits_ok "acceptPublishTopic" ["Keys"; "EventType"; "Data"; "Status"]%string = true.
 Proof. exact suffix_sites_universal. Qed.
 Print Assumptions C17_suffix_sites_for_every_declaration.
 
